@@ -29,7 +29,9 @@ TECHNIQUE = ("Hypothesis PBT over a table of every public entry point x argument
 LEVEL = ("Generated-input exploration: every enumerated public constructor / fit / transform / predict / score / metric function is "
          "called with each array argument in a drawn memory layout and compared byte-wise afterwards; constructor hyper-parameters are "
          "compared around fit; generated two- and three-step fit histories must leave exactly the public state of a fresh estimator fitted "
-         "on the last data; repeated calls must agree. No absence claim: strength = the counted distinct executed (entry, layout, data) cases.")
+         "on the last data (attributes AND behaviour: transform / predict / score outputs of the refitted vs the fresh estimator, with estimator-valued "
+         "arguments shared across the history); query methods are read-only (fitted state byte-identical before/after, repeated queries equal); "
+         "repeated calls must agree. No absence claim: strength = the counted distinct executed (entry, layout, data) cases.")
 BUDGET = {"quick": 260, "thorough": 4000}
 WATCHDOG = {"quick": 60, "thorough": 120}
 RULE = ("Three generated case families: 'purity' = (entry point from the table of %d, data seed, one memory layout per array argument, "
